@@ -40,6 +40,7 @@ structure RPod where
   containers : List CtrObs := []
   inits      : List CtrObs := []
   volumes    : List Vol := []
+  ephemerals : List Vol := []   -- ephemeral (debug) containers: name and digest of the whole container
   metaD      : String := ""     -- digest of ObjectMeta (labels, annotations, ...)
   specD      : String := ""     -- digest of the pod spec without containers, initContainers, volumes
   injC       : List String := []
@@ -115,6 +116,9 @@ def nodupB : List String → Bool
   | [] => true
   | x :: xs => !xs.contains x && nodupB xs
 
+/-- Ephemeral containers are not the injector's business: the result has exactly the pod's, unchanged. -/
+def keepsEphemeralB (before after : RPod) : Bool := decide (after.ephemerals = before.ephemerals)
+
 /-- The pod carried no record of an earlier injection (the clause `StatusTruthful orig once` applies to first injections). -/
 def RPod.fresh (p : RPod) : Bool := p.injC.isEmpty && p.injI.isEmpty && p.injV.isEmpty
 
@@ -130,6 +134,7 @@ def diffComponent (a b : RPod) : String :=
   if a.containers ≠ b.containers then "containers"
   else if a.inits ≠ b.inits then "inits"
   else if a.volumes ≠ b.volumes then "volumes"
+  else if a.ephemerals ≠ b.ephemerals then "ephemerals"
   else if a.metaD ≠ b.metaD then "metadata"
   else if a.specD ≠ b.specD then "spec"
   else if a.injC ≠ b.injC ∨ a.injI ≠ b.injI ∨ a.injV ≠ b.injV then "status"
@@ -154,22 +159,30 @@ inductive Verdict
   | fail (clause : String)
   deriving DecidableEq, Repr
 
+/-- The first preservation clause that fails (`none`: the pod is preserved by both injections). -/
+def preserveClause (a b c : RPod) : Option String :=
+  if !keepsContainersB a b then some "preserve-once-containers"
+  else if !keepsInitsB a b then some "preserve-once-inits"
+  else if !keepsVolumesB a b then some "preserve-once-volumes"
+  else if !keepsReservedB a b then some "preserve-once-reserved"
+  else if !keepsContainersB a c then some "preserve-twice-containers"
+  else if !keepsInitsB a c then some "preserve-twice-inits"
+  else if !keepsVolumesB a c then some "preserve-twice-volumes"
+  else if !keepsReservedB a c then some "preserve-twice-reserved"
+  else none
+
 /-- The monitors on a complete observation of an injected pod. -/
 def judgeMonitors (o : Obs) : Verdict :=
   match o.orig, o.once, o.twice with
   | some a, some b, some c =>
-    if !keepsContainersB a b then .fail "preserve-once-containers"
-    else if !keepsInitsB a b then .fail "preserve-once-inits"
-    else if !keepsVolumesB a b then .fail "preserve-once-volumes"
-    else if !keepsReservedB a b then .fail "preserve-once-reserved"
-    else if !keepsContainersB a c then .fail "preserve-twice-containers"
-    else if !keepsInitsB a c then .fail "preserve-twice-inits"
-    else if !keepsVolumesB a c then .fail "preserve-twice-volumes"
-    else if !keepsReservedB a c then .fail "preserve-twice-reserved"
-    else if !(nodupB b.ctrNames && nodupB c.ctrNames) then .fail "duplicate-container-name"
-    else if a.fresh && !statusTruthfulB a b then .fail "status-content"
-    else if !idempotentB b c then .fail ("idempotent " ++ diffComponent b c)
-    else .okInjected
+    match preserveClause a b c with
+    | some cl => .fail cl
+    | none =>
+      if !(nodupB b.ctrNames && nodupB c.ctrNames) then .fail "duplicate-container-name"
+      else if !(keepsEphemeralB a b && keepsEphemeralB a c) then .fail "preserve-ephemeral"
+      else if a.fresh && !statusTruthfulB a b then .fail "status-content"
+      else if !idempotentB b c then .fail ("idempotent " ++ diffComponent b c)
+      else .okInjected
   | _, _, _ => .fail "incomplete-trace"
 
 /-- A skipped pod must be handed back unchanged. -/
